@@ -35,6 +35,29 @@ def gen_faulted(rng):
     return out
 
 
+def gen_faulted_short(rng):
+    """the same with a transport that accepts only a few bytes per write call, and the fault on the WRITE side: a message is cut in the middle,
+    then close()/connect() (or a bare connect()) and the same operations again -- nothing of the cut message may reach the new connection"""
+    base = scen.gen_mixed(rng)
+    base["envs"][0]["frags"] = []
+    base["envs"][0]["ofrags"] = [rng.choice([1, 5, 10, 23, 24, 30, 100]) for _ in range(4000)]
+    r = session.Runner(copy.deepcopy(base), "sync")
+    r.run()
+    c = r.link.used[0] if r.link.used else None
+    tout = c.out_off if c else 1
+    out = []
+    for _ in range(3):
+        s = scen.with_fault(rng, base, 1, tout)
+        side, off, kind = s["fault"]
+        if side != "out":
+            off = rng.randrange(0, max(1, tout))
+            kind = rng.choice(["timeout", "reset"])
+            s["envs"][0]["faults"] = [("out", off, kind)]
+            s["fault"] = ("out", off, kind)
+        out.append(s)
+    return out
+
+
 def tcp_reset(ctx):
     """real sockets: the peer aborts the connection (RST); close() must still complete and connect() must work again (both transports)"""
     from units import c18
